@@ -130,6 +130,15 @@ def lLast (st : State) (l e : Nat) : Nat := (lsigs st l e).length - 1
 
 def modLSig (st : State) (l e k : Nat) (f : Nat × Nat → Nat × Nat) : State := modL st l e (·.modify k f)
 
+/-- `l->slotData.remove(e)` (Map::remove by key): the entry — key and list — goes; nothing happens when there is none -/
+def lErase (st : State) (l e : Nat) : State :=
+  match st.listeners l with
+  | none => st.faulted
+  | some li =>
+    if e ∈ li.emKeys then
+      st.setListener l (some { emKeys := li.emKeys.filter (· != e), sigs := fun e' => if e' = e then [] else li.sigs e' })
+    else st
+
 /-- `signals.remove(i)` -/
 def lRemove (st : State) (l e k : Nat) : State := modL st l e (·.eraseIdx k)
 
